@@ -223,10 +223,15 @@ def _sse_typestate(fn: Function, rep: Report) -> None:
         return
     loop = loops[0]
     lv = loop.target.id if isinstance(loop.target, ast.Name) else None
+    # plain copies of the loop variable inside the loop (`line = raw_line`) are the same line
+    lvs = {lv}
+    for st in ast.walk(loop):
+        if isinstance(st, ast.Assign) and len(st.targets) == 1 and isinstance(st.targets[0], ast.Name) and isinstance(st.value, ast.Name) and st.value.id in lvs:
+            lvs.add(st.targets[0].id)
     acc = None
     for c in calls_in(loop):
         if isinstance(c.func, ast.Attribute) and c.func.attr == "append" and isinstance(c.func.value, ast.Name) \
-                and c.args and isinstance(c.args[0], ast.Name) and c.args[0].id == lv:
+                and c.args and isinstance(c.args[0], ast.Name) and c.args[0].id in lvs:
             acc = c.func.value.id
     if acc is None:
         # the line accumulation is not in this function (e.g. moved into another generator it iterates): the recogniser has nothing to judge
@@ -317,7 +322,7 @@ def _sse_typestate(fn: Function, rep: Report) -> None:
     def blank_sense(g, pol) -> Optional[bool]:
         """True: this guard means 'the current line is blank'; False: 'the line is not blank'; None: some other test."""
         tv = truthiness(g.ast)
-        if tv is not None and isinstance(tv[0], ast.Name) and tv[0].id == lv and pol is not None:
+        if tv is not None and isinstance(tv[0], ast.Name) and tv[0].id in lvs and pol is not None:
             line_nonempty = tv[1] if pol else not tv[1]
             return not line_nonempty
         return None
@@ -393,11 +398,17 @@ def rule_lines_untouched(repo: Repo, rep, rule: str = "R18.6") -> None:
     lp = loops[0]
     var = lp.target.id
     sub = f"{fn.module.relpath}:iter_sse line `{var}` between aiter_lines() and the accumulator"
+    # plain copies (`line = raw_line`) are the same line; anything else assigned to one of those names rewrites it
+    names = {var}
+    for st in ast.walk(lp):
+        if isinstance(st, ast.Assign) and len(st.targets) == 1 and isinstance(st.targets[0], ast.Name) and isinstance(st.value, ast.Name) and st.value.id in names:
+            names.add(st.targets[0].id)
     rebinds = [st for st in ast.walk(lp) if isinstance(st, (ast.Assign, ast.AugAssign, ast.AnnAssign)) and any(
-        isinstance(t, ast.Name) and t.id == var for t in (st.targets if isinstance(st, ast.Assign) else [st.target]))]
+        isinstance(t, ast.Name) and t.id in names for t in (st.targets if isinstance(st, ast.Assign) else [st.target]))
+        and not (isinstance(st, ast.Assign) and isinstance(st.value, ast.Name) and st.value.id in names)]
     appended = [c for c in ast.walk(lp) if isinstance(c, ast.Call) and isinstance(c.func, ast.Attribute) and c.func.attr == "append" and c.args
-                and var in {x.id for x in ast.walk(c.args[0]) if isinstance(x, ast.Name)}]
-    changed = [c for c in appended if not (isinstance(c.args[0], ast.Name) and c.args[0].id == var)]
+                and names & {x.id for x in ast.walk(c.args[0]) if isinstance(x, ast.Name)}]
+    changed = [c for c in appended if not (isinstance(c.args[0], ast.Name) and c.args[0].id in names)]
     if rebinds:
         rep.violation(rule, sub, f"{fn.fq}|line-rewritten|{norm(rebinds[0].value)[:30] if getattr(rebinds[0], 'value', None) is not None else ''}",
                       f"`{norm(rebinds[0])[:60]}` rewrites the line before it is tested / accumulated: the event's data is no longer the data lines that were sent "
